@@ -906,7 +906,7 @@ theorem TableOk.ingest_new {P : Params ν κ} {t : TName ν} {pre post} {ev : Re
   constructor
   · simp [appendTo, newTable]
   · simp only [appendTo, newTable]
-    exact ⟨by simp, by simp, by simp, by simp, rfl⟩
+    exact ⟨by simp, by simp, by simp, by simp, rfl, by simp⟩
   · simp [appendTo, newTable]
   · simp [appendTo, newTable]
   · simp [appendTo, newTable, partRows, hpre]
